@@ -286,7 +286,8 @@ def read_bam(path):
                     "tlen": s.template_length,
                     "seq": s.query_sequence,
                     "qual": None if s.query_qualities is None else list(s.query_qualities),
-                    "tags": sorted((t, v if not hasattr(v, "tolist") else tuple(v.tolist())) for t, v in s.get_tags()),
+                    # tags in file order, with their value types (A, Z, H, i/C/..., f, B)
+                    "tags": [(t, v if not hasattr(v, "tolist") else tuple(v.tolist()), ty) for t, v, ty in s.get_tags(with_value_type=True)],
                 }
             )
     return out
